@@ -3,6 +3,7 @@ package main
 import (
 	"fmt"
 	"go/token"
+	"go/types"
 	"sort"
 	"strings"
 
@@ -23,9 +24,10 @@ func init() {
 
 const (
 	c13Post  = "(*jsonclient.JSONClient).PostAndParse"
-	c13Wait  = "(*jsonclient.JSONClient).waitForBackoff"
-	c13Set   = "*jsonclient.backoff*).set" // interface call or direct method call
-	c13Until = "*jsonclient.backoff*).until"
+	c13WaitM = "(*jsonclient.JSONClient).waitForBackoff" // the wait as a method of the client …
+	c13WaitF = "jsonclient.waitForBackoff"               // … or as a function handed the context and the state
+	c13Set   = "*jsonclient.*).set"                      // interface call or direct method call; the receiver must be the client's back-off state
+	c13Loop0 = "(*jsonclient.JSONClient).PostAndParseWithRetry"
 )
 
 func runC13(r *Run) {
@@ -33,15 +35,21 @@ func runC13(r *Run) {
 	r.Assume("time.Now/Until/Add, rand.Intn, strconv.Atoi and time.Parse behave per their documentation; Duration arithmetic does not overflow for sane Retry-After values")
 	r.Assume("the only implementation of jsonclient.backoffer outside tests is *jsonclient.backoff (checked: every store to JSONClient.backoff is a fresh *backoff)")
 
-	if fn := r.Fn("(*jsonclient.JSONClient).PostAndParseWithRetry"); fn != nil {
-		c13Loop(r, fn)
+	loop := r.Fn(c13Loop0)
+	if loop != nil {
+		c13Loop(r, loop)
 	}
 	if fn := r.Fn("(*jsonclient.backoff).set"); fn != nil {
 		c13Set3(r, fn)
 	}
 	c13Who(r)
-	if fn := r.Fn(c13Wait); fn != nil {
-		c13WaitRule(r, fn)
+	r.Rule("C13.R4")
+	if loop != nil {
+		if w := c13FindWait(loop); w != nil {
+			c13WaitRule(r, w)
+		} else {
+			r.Fail("anchor:"+c13WaitM, "-", "undecided: the retry loop neither calls waitForBackoff nor waits in a select of its own")
+		}
 	}
 	if fn := r.Fn(c13Post); fn != nil {
 		c13PostRule(r, fn)
@@ -49,58 +57,186 @@ func runC13(r *Run) {
 	c13LogClient(r)
 }
 
+// ---- the wait between two attempts ------------------------------------------------
+
+// c13WaitSite is where the loop waits: a call of waitForBackoff (method of the client, or a
+// function handed the context and the back-off state), or — when the wait is written out in
+// the loop body — the blocking select of the loop itself.
+type c13WaitSite struct {
+	loop   *ssa.Function
+	fn     *ssa.Function         // holds the timer and the select (== loop when written out)
+	calls  []ssa.CallInstruction // calls of fn in the loop (none when written out)
+	marks  []ssa.Instruction     // "a wait happens here" in the loop: the calls, or the select
+	errIdx int                   // index of fn's error result
+	tuple  bool
+}
+
+func (w *c13WaitSite) inline() bool { return w.fn == w.loop }
+
+func c13FindWait(loop *ssa.Function) *c13WaitSite {
+	for _, g := range []string{c13WaitM, c13WaitF} {
+		cs := CallsTo(loop, g)
+		if len(cs) == 0 {
+			continue
+		}
+		callee := cs[0].Common().StaticCallee()
+		if callee == nil || len(callee.Blocks) == 0 {
+			return nil
+		}
+		res := callee.Signature.Results()
+		if res.Len() == 0 || !types.Identical(res.At(res.Len()-1).Type(), types.Universe.Lookup("error").Type()) {
+			return nil
+		}
+		return &c13WaitSite{loop: loop, fn: callee, calls: cs, marks: asInstrs(cs), errIdx: res.Len() - 1, tuple: res.Len() > 1}
+	}
+	var sels []ssa.Instruction
+	eachInstr(loop, func(in ssa.Instruction) {
+		if s, ok := in.(*ssa.Select); ok && s.Blocking {
+			sels = append(sels, in)
+		}
+	})
+	if len(sels) == 0 {
+		return nil
+	}
+	return &c13WaitSite{loop: loop, fn: loop, marks: sels, errIdx: 2}
+}
+
+// what the loop hands back when the wait ended with the context
+const c13CtxErr = "iface(context.Context).Err(p1)"
+
+// isWaitErr: ev is the error the wait ended with.
+func (w *c13WaitSite) isWaitErr(r *Run, ev ssa.Value) bool {
+	if w == nil {
+		return false
+	}
+	if w.inline() {
+		return r.D.D(ev) == c13CtxErr
+	}
+	c, i := ResultIndex(ev)
+	if c == nil || i != w.errIdx {
+		return false
+	}
+	for _, wc := range w.calls {
+		if ssa.Instruction(wc) == ssa.Instruction(c) {
+			return true
+		}
+	}
+	return false
+}
+
+// errAtom: the branch condition "the wait failed".
+func (w *c13WaitSite) errAtom() RuleAtom {
+	if w.inline() {
+		return nilAtom(c13CtxErr)
+	}
+	if w.tuple {
+		return nilAtom(fmt.Sprintf("%s(*)#%d", FuncName(w.fn), w.errIdx))
+	}
+	return nilAtom(FuncName(w.fn) + "(*)")
+}
+
+// inLoop translates an origin term of the wait function's frame into the loop's frame (the same
+// at every call of it).
+func (w *c13WaitSite) inLoop(r *Run, term string) (string, bool) {
+	if w.inline() {
+		return term, true
+	}
+	out := ""
+	for i, c := range w.calls {
+		t, ok := r.SubstParams(term, c)
+		if !ok || i > 0 && t != out {
+			return term, false
+		}
+		out = t
+	}
+	return out, len(w.calls) > 0
+}
+
 // ---- R1 / R2: the retry loop ------------------------------------------------
 
 type c13Outcome struct {
-	kinds []string // kinds of returns that may execute
-	sets  []ssa.Instruction
-	waits []ssa.Instruction
-	loops bool
-	rets  []*ssa.Return
+	kinds   []string // kinds of returns that may execute
+	sets    []ssa.Instruction
+	waits   []ssa.Instruction
+	loops   bool
+	rspErrs []ssa.Value // the RspError values handed out
 }
 
 func (o c13Outcome) String() string {
 	return fmt.Sprintf("returns=%v set-calls=%d wait-calls=%d next-attempt=%v", o.kinds, len(o.sets), len(o.waits), o.loops)
 }
 
-func c13RetKind(r *Run, ret *ssa.Return) string {
-	v := RetVals(ret)
-	if len(v) != 3 {
-		return "other"
-	}
-	d0, d1, de := r.D.D(v[0]), r.D.D(v[1]), r.D.D(v[2])
-	switch {
-	case glob(c13Post+"(*)#0", d0) && glob(c13Post+"(*)#1", d1) && errKind(v[2]) == "nil":
-		return "success"
-	case d0 != "nil" || d1 != "nil":
-		return "other(" + d0 + ", " + d1 + ", " + de + ")"
-	case glob(c13Wait+"(*)", de):
-		return "wait-error"
-	case glob(c13Post+"(*)#2", de):
-		return "attempt-error"
-	case errKind(v[2]) == "non":
-		if a := baseAlloc(v[2]); a != nil && glob("new:jsonclient.RspError#*", r.D.allocName(a)) {
-			return "rsp-error"
-		}
-		return "other-error(" + de + ")"
-	}
-	return "other(" + de + ")"
+type c13Kind struct {
+	kind string
+	err  ssa.Value
 }
 
-func c13Eval(r *Run, fn *ssa.Function, header *ssa.BasicBlock, s Sigma, sets, waits []ssa.Instruction) c13Outcome {
-	reach := r.D.Walk(fn, s, header, nil)
-	r.Valuations++
+// c13RetKinds: what a return statement hands out under a walk (nil: anywhere).  One return
+// statement may serve several outcomes — its results are then φ-nodes — so the response and body
+// are rendered as they arrive under the walk and every error value that can arrive is classified
+// on its own.
+func c13RetKinds(r *Run, w *c13WaitSite, ret *ssa.Return, reach *Reach) []c13Kind {
+	v := RetVals(ret)
+	if len(v) != 3 {
+		return []c13Kind{{"other", nil}}
+	}
+	under := func(x ssa.Value) string {
+		if reach != nil {
+			return r.D.DUnder(x, reach)
+		}
+		return r.D.D(x)
+	}
+	d0, d1 := under(v[0]), under(v[1])
+	var out []c13Kind
+	for _, e := range PhiLeaves(v[2], reach) {
+		de := r.D.D(e)
+		k := "other(" + de + ")"
+		switch {
+		case glob(c13Post+"(*)#0", d0) && glob(c13Post+"(*)#1", d1) && errKind(e) == "nil":
+			k = "success"
+		case d0 != "nil" || d1 != "nil":
+			k = "other(" + d0 + ", " + d1 + ", " + de + ")"
+		case w.isWaitErr(r, e):
+			k = "wait-error"
+		case glob(c13Post+"(*)#2", de):
+			k = "attempt-error"
+		case errKind(e) == "non":
+			if a := baseAlloc(e); a != nil && glob("new:jsonclient.RspError#*", r.D.allocName(a)) {
+				k = "rsp-error"
+			} else {
+				k = "other-error(" + de + ")"
+			}
+		}
+		out = append(out, c13Kind{k, e})
+	}
+	if len(out) == 0 {
+		out = append(out, c13Kind{"other(no error value arrives)", nil})
+	}
+	return out
+}
+
+func c13Observe(r *Run, w *c13WaitSite, fn *ssa.Function, header *ssa.BasicBlock, reach *Reach, sets, waits []ssa.Instruction) c13Outcome {
 	o := c13Outcome{sets: reachableIns(sets, reach), waits: reachableIns(waits, reach), loops: BackEdgeTaken(reach, header)}
 	seen := map[string]bool{}
 	for _, ret := range reachableReturns(fn, reach) {
-		o.rets = append(o.rets, ret)
-		if k := c13RetKind(r, ret); !seen[k] {
-			seen[k] = true
-			o.kinds = append(o.kinds, k)
+		for _, k := range c13RetKinds(r, w, ret, reach) {
+			if k.kind == "rsp-error" {
+				o.rspErrs = append(o.rspErrs, k.err)
+			}
+			if !seen[k.kind] {
+				seen[k.kind] = true
+				o.kinds = append(o.kinds, k.kind)
+			}
 		}
 	}
 	sort.Strings(o.kinds)
 	return o
+}
+
+func c13Eval(r *Run, w *c13WaitSite, fn *ssa.Function, header *ssa.BasicBlock, s Sigma, sets, waits []ssa.Instruction) c13Outcome {
+	reach := r.D.Walk(fn, s, header, nil)
+	r.Valuations++
+	return c13Observe(r, w, fn, header, reach, sets, waits)
 }
 
 func c13OnlyKinds(o c13Outcome, allowed ...string) bool {
@@ -130,7 +266,11 @@ func c13Loop(r *Run, fn *ssa.Function) {
 		r.ExpectArg(post, fmt.Sprintf("retry:attempt.arg%d", i), i, fmt.Sprintf("p%d", i))
 	}
 	sets := asInstrs(CallsTo(fn, c13Set))
-	waits := asInstrs(CallsTo(fn, c13Wait))
+	w := c13FindWait(fn)
+	var waits []ssa.Instruction
+	if w != nil {
+		waits = w.marks
+	}
 	r.Check("retry:set-calls", len(sets) >= 2, r.FnPos(fn), fmt.Sprintf("%d calls of backoff.set in the loop (error edge and 429/503 expected)", len(sets)))
 	r.Check("retry:wait-calls", len(waits) >= 1, r.FnPos(fn), fmt.Sprintf("%d calls of waitForBackoff in the loop", len(waits)))
 	if len(sets) < 2 || len(waits) < 1 {
@@ -190,7 +330,7 @@ func c13Loop(r *Run, fn *ssa.Function) {
 			r.Fail("retry:status="+label, r.FnPos(fn), "status "+label+" is not distinguished by the loop (falls to the default)")
 			continue
 		}
-		o := c13Eval(r, fn, header, merge(c.Sigma, errNil), sets, waits)
+		o := c13Eval(r, w, fn, header, merge(c.Sigma, errNil), sets, waits)
 		ok, want := judge(label, o)
 		r.Check("retry:status="+label, ok, r.Where(post), want+"; found "+o.String())
 	}
@@ -198,24 +338,22 @@ func c13Loop(r *Run, fn *ssa.Function) {
 		if c.Default || c.Value == 200 || c.Value == 408 || c.Value == 429 || c.Value == 503 {
 			continue
 		}
-		o := c13Eval(r, fn, header, merge(c.Sigma, errNil), sets, waits)
+		o := c13Eval(r, w, fn, header, merge(c.Sigma, errNil), sets, waits)
 		ok, want := judge("other", o)
 		r.Check(fmt.Sprintf("retry:status=%d", c.Value), ok, r.Where(post), want+"; found "+o.String())
 	}
 	if def == nil {
 		r.Fail("retry:status=default", r.FnPos(fn), "undecided: no default case")
 	} else {
-		o := c13Eval(r, fn, header, merge(def.Sigma, errNil), sets, waits)
+		o := c13Eval(r, w, fn, header, merge(def.Sigma, errNil), sets, waits)
 		ok, want := judge("other", o)
 		r.Check("retry:status=default", ok, r.Where(post), want+"; found "+o.String())
-		for _, ret := range o.rets {
-			if c13RetKind(r, ret) == "rsp-error" {
-				r.ExpectFields(fn, "retry:default-error", RetVals(ret)[2], map[string]string{
-					"StatusCode": c13Post + "(*)#0.StatusCode",
-					"Body":       c13Post + "(*)#1",
-					"Err":        "fmt.Errorf(*) || errors.New(*)",
-				})
-			}
+		for _, ev := range o.rspErrs {
+			r.ExpectFields(fn, "retry:default-error", ev, map[string]string{
+				"StatusCode": c13Post + "(*)#0.StatusCode",
+				"Body":       c13Post + "(*)#1",
+				"Err":        "fmt.Errorf(*) || errors.New(*)",
+			})
 		}
 	}
 
@@ -236,10 +374,7 @@ func c13Loop(r *Run, fn *ssa.Function) {
 			return "other-error"
 		},
 		func(class string, val map[string]string, reach *Reach) string {
-			o := c13Outcome{sets: reachableIns(sets, reach), waits: reachableIns(waits, reach), loops: BackEdgeTaken(reach, header)}
-			for _, ret := range reachableReturns(fn, reach) {
-				o.kinds = append(o.kinds, c13RetKind(r, ret))
-			}
+			o := c13Observe(r, w, fn, header, reach, sets, waits)
 			if class == "context-ended" {
 				if len(o.kinds) == 1 && o.kinds[0] == "attempt-error" && len(o.sets) == 0 && len(o.waits) == 0 && !o.loops {
 					return ""
@@ -258,6 +393,43 @@ func c13Loop(r *Run, fn *ssa.Function) {
 		})
 
 	// R2b: the override on 429 / 503
+	c13Overrides(r, fn, header, byCode, errNil, sets)
+	for _, sc := range sets {
+		r.ExpectArg(sc.(ssa.CallInstruction), "retry:set.receiver", 0, "p0.backoff")
+	}
+
+	// R2c: no way round the loop avoids the wait; the wait's error ends the loop
+	r.Check("retry:wait-on-every-round", !CycleAvoiding(header, BlocksOf(waits)), r.Where(waits[0]),
+		"every path from one attempt to the next passes a waitForBackoff call")
+	// the wait is handed the loop's own client / context / back-off state and nothing else
+	for _, wc := range w.calls {
+		for i, a := range CallArgs(wc) {
+			key, want := "retry:wait.client", "p0 || p0.backoff"
+			if strings.HasSuffix(a.Type().String(), "context.Context") {
+				key, want = "retry:wait.ctx", "p1"
+			}
+			r.ExpectArg(wc, key, i, want)
+		}
+	}
+	r.FailEdge(fn, "retry", EdgeSpec{Name: "wait-error", Atom: w.errAtom(), Bad: "non",
+		Want: func(r *Run, ret *ssa.Return) (bool, string) {
+			var ks []string
+			ok := true
+			for _, k := range c13RetKinds(r, w, ret, nil) {
+				ks = append(ks, k.kind)
+				ok = ok && k.kind == "wait-error"
+			}
+			return ok, "return kind " + strings.Join(ks, ", ")
+		},
+		Unreach: append([]ssa.Instruction{post}, sets...)})
+}
+
+// c13Overrides (R2b): on 429 / 503 the override handed to backoff.set is nil without a Retry-After
+// header, seconds×time.Second for an integer, time.Until(date) for an RFC 1123 date, nil when
+// neither parses.  The header is examined either in the loop itself or by a helper that is a pure
+// function of the response and whose result is what the loop hands to backoff.set; in the second
+// form the table is decided inside the helper and its terms are carried to the call site.
+func c13Overrides(r *Run, fn *ssa.Function, header *ssa.BasicBlock, byCode map[int64]*ConstCase, errNil Sigma, sets []ssa.Instruction) {
 	ra := ordAtomR(`(http.Header).Get(*"Retry-After")`, `""`)
 	atoi := nilAtom("strconv.Atoi(*)#1")
 	parse := nilAtom("time.Parse(*)#1")
@@ -272,57 +444,180 @@ func c13Loop(r *Run, fn *ssa.Function) {
 		{"http-date", []AtomVal{{ra, ">"}, {atoi, "non"}, {parse, "nil"}}, "date"},
 		{"unparsable", []AtomVal{{ra, ">"}, {atoi, "non"}, {parse, "non"}}, "nil"},
 	}
+	merge := func(a, b Sigma) Sigma {
+		s := Sigma{}
+		for k, v := range a {
+			s[k] = v
+		}
+		for k, v := range b {
+			s[k] = v
+		}
+		return s
+	}
+	_, raErr := r.BindSigma(fn, AtomVal{ra, "="})
+	direct := raErr == nil
+	// the function that examines the header, and (helper form) the call that carries its terms
+	type site struct {
+		fn  *ssa.Function
+		via ssa.CallInstruction
+	}
+	var sites []site
+	addSite := func(s site) {
+		for _, x := range sites {
+			if x.fn == s.fn {
+				return
+			}
+		}
+		sites = append(sites, s)
+	}
+	if direct {
+		addSite(site{fn, nil})
+	}
 	for _, code := range []int64{429, 503} {
 		c := byCode[code]
 		if c == nil {
 			continue
 		}
-		for _, ov := range ovs {
-			key := fmt.Sprintf("retry:override[%d,%s]", code, ov.name)
-			s2, err := r.BindSigma(fn, ov.avs...)
-			if err != nil {
-				r.Fail(key, r.FnPos(fn), "undecided: "+err.Error())
+		base := merge(c.Sigma, errNil)
+		if direct {
+			for _, ov := range ovs {
+				key := fmt.Sprintf("retry:override[%d,%s]", code, ov.name)
+				s2, err := r.BindSigma(fn, ov.avs...)
+				if err != nil {
+					r.Fail(key, r.FnPos(fn), "undecided: "+err.Error())
+					continue
+				}
+				s := merge(base, s2)
+				reach := r.D.Walk(fn, s, header, nil)
+				r.Valuations++
+				rs := reachableIns(sets, reach)
+				if len(rs) == 0 {
+					r.Fail(key, r.FnPos(fn), "no backoff.set call executes under "+s.String())
+					continue
+				}
+				for _, sc := range rs {
+					ok, got := c13Override(r, CallArgs(sc.(ssa.CallInstruction))[1], reach, ov.want)
+					r.Check(key, ok, r.Where(sc), fmt.Sprintf("override handed to backoff.set: %s (property: %s)", got, ov.want))
+				}
+			}
+			continue
+		}
+		reach := r.D.Walk(fn, base, header, nil)
+		r.Valuations++
+		rs := reachableIns(sets, reach)
+		failAll := func(where, why string) {
+			for _, ov := range ovs {
+				r.Fail(fmt.Sprintf("retry:override[%d,%s]", code, ov.name), where, why)
+			}
+		}
+		if len(rs) == 0 {
+			failAll(r.FnPos(fn), "no backoff.set call executes under "+base.String())
+			continue
+		}
+		for _, sc := range rs {
+			arg := CallArgs(sc.(ssa.CallInstruction))[1]
+			hc, idx := ResultIndex(arg)
+			var g *ssa.Function
+			if hc != nil {
+				g = hc.Common().StaticCallee()
+			}
+			if g == nil || fnPkg(g) == nil || fnPkg(g) != fnPkg(fn) {
+				failAll(r.Where(sc), "undecided: "+raErr.Error()+", and the override "+r.D.D(arg)+" is not the result of a helper of this package")
 				continue
 			}
-			s := merge(merge(c.Sigma, errNil), s2)
-			reach := r.D.Walk(fn, s, header, nil)
-			r.Valuations++
-			rs := reachableIns(sets, reach)
-			if len(rs) == 0 {
-				r.Fail(key, r.FnPos(fn), "no backoff.set call executes under "+s.String())
+			if pure, why := PureOfArgs(g); !pure {
+				failAll(r.Where(sc), "undecided: the override is computed by "+FuncName(g)+", which is not a pure function of its arguments ("+why+")")
 				continue
 			}
-			for _, sc := range rs {
-				ok, got := c13Override(r, CallArgs(sc.(ssa.CallInstruction))[1], reach, ov.want)
-				r.Check(key, ok, r.Where(sc), fmt.Sprintf("override handed to backoff.set: %s (property: %s)", got, ov.want))
+			r.Funcs[FuncName(g)] = true
+			addSite(site{g, hc})
+			touched := c13StoredThrough(r, arg, reach)
+			for _, ov := range ovs {
+				key := fmt.Sprintf("retry:override[%d,%s]", code, ov.name)
+				s2, err := r.BindSigma(g, ov.avs...)
+				if err != nil {
+					r.Fail(key, r.FnPos(g), "undecided: "+err.Error())
+					continue
+				}
+				greach := r.D.Walk(g, s2, nil, nil)
+				r.Valuations++
+				rets := reachableReturns(g, greach)
+				if len(rets) == 0 {
+					r.Fail(key, r.FnPos(g), "undecided: no return of "+FuncName(g)+" executes under "+s2.String())
+					continue
+				}
+				for _, ret := range rets {
+					ok, got := c13Override(r, RetVals(ret)[idx], greach, ov.want)
+					if len(touched) > 0 {
+						ok, got = false, got+" | "+strings.Join(touched, " | ")
+					}
+					r.Check(key, ok, r.Where(ret), fmt.Sprintf("override returned by %s and handed to backoff.set: %s (property: %s)", FuncName(g), got, ov.want))
+				}
 			}
 		}
 	}
-	if c := r.OneCall(fn, "retry:Atoi", "strconv.Atoi"); c != nil {
-		r.ExpectArg(c, "retry:Atoi.input", 0, `(http.Header).Get(*PostAndParse(*)#0.Header, "Retry-After")`)
+	if len(sites) == 0 {
+		sites = append(sites, site{fn, nil}) // report the missing parsers against the loop
 	}
-	if c := r.OneCall(fn, "retry:time.Parse", "time.Parse"); c != nil {
-		r.ExpectArg(c, "retry:time.Parse.layout", 0, `"Mon, 02 Jan 2006 15:04:05 MST" || "Mon, 02 Jan 2006 15:04:05 GMT"`)
-		r.ExpectArg(c, "retry:time.Parse.input", 1, `(http.Header).Get(*PostAndParse(*)#0.Header, "Retry-After")`)
+	for _, st := range sites {
+		header := `(http.Header).Get(*PostAndParse(*)#0.Header, "Retry-After")`
+		if c := r.OneCall(st.fn, "retry:Atoi", "strconv.Atoi"); c != nil {
+			c13ExpectArgVia(r, c, "retry:Atoi.input", 0, header, st.via)
+		}
+		if c := r.OneCall(st.fn, "retry:time.Parse", "time.Parse"); c != nil {
+			r.ExpectArg(c, "retry:time.Parse.layout", 0, `"Mon, 02 Jan 2006 15:04:05 MST" || "Mon, 02 Jan 2006 15:04:05 GMT"`)
+			c13ExpectArgVia(r, c, "retry:time.Parse.input", 1, header, st.via)
+		}
 	}
-	for _, sc := range sets {
-		r.ExpectArg(sc.(ssa.CallInstruction), "retry:set.receiver", 0, "p0.backoff")
-	}
+}
 
-	// R2c: no way round the loop avoids the wait; the wait's error ends the loop
-	r.Check("retry:wait-on-every-round", !CycleAvoiding(header, BlocksOf(waits)), r.Where(waits[0]),
-		"every path from one attempt to the next passes a waitForBackoff call")
-	for _, w := range waits {
-		wc := w.(ssa.CallInstruction)
-		r.ExpectArg(wc, "retry:wait.client", 0, "p0")
-		r.ExpectArg(wc, "retry:wait.ctx", 1, "p1")
+// c13ExpectArgVia is ExpectArg for a call inside a helper: the argument's origin term is carried
+// into the frame of the function that calls the helper (via) before it is compared.
+func c13ExpectArgVia(r *Run, c ssa.CallInstruction, key string, i int, valGlob string, via ssa.CallInstruction) bool {
+	if via == nil {
+		return r.ExpectArg(c, key, i, valGlob)
 	}
-	r.FailEdge(fn, "retry", EdgeSpec{Name: "wait-error", Atom: nilAtom(c13Wait + "(*)"), Bad: "non",
-		Want: func(r *Run, ret *ssa.Return) (bool, string) {
-			k := c13RetKind(r, ret)
-			return k == "wait-error", "return kind " + k
-		},
-		Unreach: append([]ssa.Instruction{post}, sets...)})
+	got := r.D.D(CallArgs(c)[i])
+	t, ok := r.SubstParams(got, via)
+	if !ok {
+		return r.Check(key, false, r.Where(c), fmt.Sprintf("undecided: arg %d of %s = %s cannot be expressed in the terms of the caller of %s", i, CalleeOf(c), got, CalleeOf(via)))
+	}
+	return r.Check(key, anyGlob(valGlob, t), r.Where(c), fmt.Sprintf("arg %d of %s = %s, at the call of %s: %s (expected %s)", i, CalleeOf(c), got, CalleeOf(via), t, valGlob))
+}
+
+// c13StoredThrough: stores through the pointer v — or through any φ it is merged from — that may
+// execute under the walk ("*override += x").  Stores into the locals themselves are judged by
+// c13Override (WholeStores).
+func c13StoredThrough(r *Run, v ssa.Value, reach *Reach) []string {
+	var got []string
+	seen := map[ssa.Value]bool{}
+	var visit func(x ssa.Value)
+	visit = func(x ssa.Value) {
+		if seen[x] {
+			return
+		}
+		seen[x] = true
+		if _, isAlloc := x.(*ssa.Alloc); isAlloc {
+			return
+		}
+		if refs := x.Referrers(); refs != nil {
+			for _, ref := range *refs {
+				if st, isSt := ref.(*ssa.Store); isSt && st.Addr == x && reach.Has(st) {
+					got = append(got, "modified after parsing: *override ← "+r.D.D(st.Val))
+				}
+			}
+		}
+		if ph, ok := x.(*ssa.Phi); ok {
+			for i, e := range ph.Edges {
+				if reach != nil && !reach.Edges[[2]int{ph.Block().Preds[i].Index, ph.Block().Index}] {
+					continue
+				}
+				visit(e)
+			}
+		}
+	}
+	visit(v)
+	return got
 }
 
 // c13Override classifies the override pointer handed to backoff.set under a walk.
@@ -331,18 +626,10 @@ func c13Override(r *Run, v ssa.Value, reach *Reach, want string) (bool, string) 
 	if len(leaves) == 0 {
 		return false, "no value"
 	}
-	var got []string
-	ok := true
 	// the parsed duration must reach backoff.set unmodified: no store through the
 	// pointer that is handed over (e.g. "*override += jitter")
-	if refs := v.Referrers(); refs != nil {
-		for _, ref := range *refs {
-			if st, isSt := ref.(*ssa.Store); isSt && st.Addr == v && reach.Has(st) {
-				got = append(got, "modified after parsing: *override ← "+r.D.D(st.Val))
-				ok = false
-			}
-		}
-	}
+	got := c13StoredThrough(r, v, reach)
+	ok := len(got) == 0
 	for _, l := range leaves {
 		if isNilConst(l) {
 			got = append(got, "nil")
@@ -543,17 +830,41 @@ func c13Who(r *Run) {
 
 // ---- R4: waitForBackoff -----------------------------------------------------------
 
-func c13WaitRule(r *Run, fn *ssa.Function) {
+// c13WaitRule decides R4 on the function that holds the timer and the select: waitForBackoff, or
+// the retry loop itself when the wait is written out in its body.  Terms that name the client,
+// its back-off state or the context are carried into the loop's frame before they are compared.
+func c13WaitRule(r *Run, w *c13WaitSite) {
 	r.Rule("C13.R4")
+	fn := w.fn
+	r.Funcs[FuncName(fn)] = true
+	var header *ssa.BasicBlock // written-out form: the attempt that follows the wait
+	if w.inline() {
+		if cs := CallsTo(fn, c13Post); len(cs) == 1 {
+			header = cs[0].Block()
+		} else {
+			r.Fail("wait:loop", r.FnPos(fn), "undecided: the attempt of the retry loop is not unique")
+			return
+		}
+	}
 	timerGlob := "time.NewTimer"
 	if len(CallsTo(fn, timerGlob)) == 0 {
 		timerGlob = "time.After"
 	}
 	timer := r.OneCall(fn, "wait:timer", timerGlob)
-	until := r.OneCall(fn, "wait:time.Until", "time.Until")
-	if timer == nil || until == nil {
+	if timer == nil {
 		return
 	}
+	// the remaining time: the time.Until whose result arms the timer
+	var untils []ssa.CallInstruction
+	for _, l := range PhiLeaves(CallArgs(timer)[0], nil) {
+		if c, _ := ResultIndex(l); c != nil && CalleeOf(c) == "time.Until" {
+			untils = append(untils, c)
+		}
+	}
+	if !r.Check("wait:time.Until", len(untils) == 1, r.Where(timer), fmt.Sprintf("expected exactly one call to time.Until arming the timer of %s, found %d (timer armed with %s)", FuncName(fn), len(untils), r.D.D(CallArgs(timer)[0]))) {
+		return
+	}
+	until := untils[0]
 	neg, err := r.BindSigma(fn, AtomVal{ordAtomR("time.Until(*)", "0"), "<"})
 	if err != nil {
 		r.Fail("wait:clamp", r.FnPos(fn), "undecided: "+err.Error())
@@ -566,17 +877,74 @@ func c13WaitRule(r *Run, fn *ssa.Function) {
 			r.Check("wait:duration["+v+"0]", glob("time.Until(*)", got), r.Where(timer), "remaining time "+v+" 0 ⇒ timer("+got+")")
 		}
 	}
-	r.ExpectArg(until, "wait:deadline", 0, "(time.Time).Add("+c13Until+"(*), (1000000 * rand.Intn(*)))")
-	if c := r.OneCall(fn, "wait:until", c13Until); c != nil {
-		r.ExpectArg(c, "wait:until.receiver", 0, "p0.backoff")
+	// the deadline is (the not-before instant of the client's back-off state) + jitter: the instant
+	// is read by a call on the state — whatever the method is called — whose implementation for the
+	// concrete type(s) stored in JSONClient.backoff returns notBefore
+	deadline := r.D.D(CallArgs(until)[0])
+	var nb ssa.CallInstruction
+	if add := callOfValue(CallArgs(until)[0]); add != nil && CalleeOf(add) == "(time.Time).Add" && len(CallArgs(add)) == 2 {
+		if glob("(1000000 * rand.Intn(*))", r.D.D(CallArgs(add)[1])) {
+			nb = callOfValue(CallArgs(add)[0])
+		}
 	}
-	if fu := r.Fn("(*jsonclient.backoff).until"); fu != nil {
-		for _, ret := range Returns(fu) {
-			if len(ret.Block().Preds) == 0 && ret.Block().Index != 0 {
-				continue // recover block
+	r.Check("wait:deadline", nb != nil, r.Where(until), "arg 0 of time.Until = "+deadline+" (expected (time.Time).Add(<not-before instant read from the back-off state>, (1000000 * rand.Intn(*))))")
+	if nb != nil {
+		args := CallArgs(nb)
+		recv, ok := "", false
+		if len(args) == 1 {
+			recv, ok = w.inLoop(r, r.D.D(args[0]))
+		}
+		r.Check("wait:until.receiver", ok && recv == "p0.backoff", r.Where(nb), fmt.Sprintf("the instant is read by %s from %s (expected a call without arguments on p0.backoff, the client's back-off state)", CalleeOf(nb), recv))
+		var impls []string
+		if !(ok && recv == "p0.backoff") {
+			// not a read of the client's state: nothing to resolve
+		} else if nb.Common().IsInvoke() {
+			m := nb.Common().Method.Name()
+			ws := r.FieldWriters("jsonclient.JSONClient.backoff")
+			seen := map[string]bool{}
+			for _, wn := range keysOf(ws) {
+				for _, in := range ws[wn] {
+					st, isSt := in.(*ssa.Store)
+					if !isSt {
+						continue
+					}
+					t := ""
+					if mi, isMI := st.Val.(*ssa.MakeInterface); isMI {
+						if pt, isPtr := mi.X.Type().Underlying().(*types.Pointer); isPtr {
+							t = "(*" + TypeName(types.Unalias(pt.Elem())) + ")." + m
+						} else {
+							t = "(" + TypeName(types.Unalias(mi.X.Type())) + ")." + m
+						}
+					}
+					if t == "" {
+						r.Fail("wait:until", r.Where(in), "undecided: the concrete type of the back-off state stored here is not evident: "+r.D.D(st.Val))
+					} else if !seen[t] {
+						seen[t] = true
+						impls = append(impls, t)
+					}
+				}
 			}
-			d := r.D.D(RetVals(ret)[0])
-			r.Check("until:value", d == "p0.notBefore", r.Where(ret), "until() returns "+d)
+		} else if f := nb.Common().StaticCallee(); f != nil {
+			impls = append(impls, FuncName(f))
+		}
+		if ok && recv == "p0.backoff" {
+			r.Check("wait:until", len(impls) >= 1, r.Where(nb), fmt.Sprintf("the instant read by %s is implemented by %v", CalleeOf(nb), impls))
+		}
+		for _, name := range impls {
+			fu := r.Fn(name)
+			if fu == nil {
+				continue
+			}
+			n := 0
+			for _, ret := range Returns(fu) {
+				if len(ret.Block().Preds) == 0 && ret.Block().Index != 0 {
+					continue // recover block
+				}
+				n++
+				d := r.D.D(RetVals(ret)[0])
+				r.Check("until:value", d == "p0.notBefore", r.Where(ret), short(name)+"() returns "+d)
+			}
+			r.Check("until:returns", n >= 1, r.FnPos(fu), fmt.Sprintf("%d returns of %s", n, name))
 		}
 	}
 	if c := r.OneCall(fn, "wait:jitter", "rand.Intn"); c != nil {
@@ -589,24 +957,31 @@ func c13WaitRule(r *Run, fn *ssa.Function) {
 	}
 	// the select
 	var sel *ssa.Select
+	nsel := 0
 	eachInstr(fn, func(in ssa.Instruction) {
 		if s, ok := in.(*ssa.Select); ok {
 			sel = s
+			nsel++
 		}
 	})
 	if sel == nil {
 		r.Fail("wait:select", r.FnPos(fn), "no select statement: the wait does not listen for the end of the context")
 		return
 	}
+	if nsel > 1 {
+		r.Fail("wait:select", r.FnPos(fn), fmt.Sprintf("undecided: %d select statements in %s", nsel, FuncName(fn)))
+		return
+	}
 	r.Check("wait:select.blocking", sel.Blocking, r.Where(sel), "the select blocks (no default case)")
 	doneIdx, timerIdx := -1, -1
 	for i, st := range sel.States {
 		d := r.D.D(st.Chan)
+		dl, okL := w.inLoop(r, d)
 		switch {
-		case d == "iface(context.Context).Done(p1)":
+		case okL && dl == "iface(context.Context).Done(p1)":
 			doneIdx = i
 		case glob("time.NewTimer(*).C", d) || glob("time.After(*)", d):
-			timerIdx = i
+			timerIdx = i // the only timer of fn (wait:timer)
 		}
 	}
 	r.Check("wait:select.timer-case", timerIdx >= 0 && len(sel.States) == 2, r.Where(sel), fmt.Sprintf("%d cases; one receives from the back-off timer", len(sel.States)))
@@ -618,13 +993,20 @@ func c13WaitRule(r *Run, fn *ssa.Function) {
 		r.Fail("wait:ctx-done", r.Where(sel), "undecided: "+err.Error())
 		return
 	}
-	var reach *Reach
+	var stop map[*ssa.BasicBlock]bool
+	if header != nil {
+		stop = map[*ssa.BasicBlock]bool{header: true} // what the next attempt does is not the wait's outcome
+	}
+	var reach, fired *Reach
 	for _, c := range cases {
 		if !c.Default && c.Value == int64(doneIdx) {
-			reach = c.Reach
+			reach = r.D.Walk(fn, c.Sigma, sel.Block(), stop)
+		}
+		if !c.Default && c.Value == int64(timerIdx) {
+			fired = r.D.Walk(fn, c.Sigma, sel.Block(), stop)
 		}
 	}
-	r.Valuations++
+	r.Valuations += 2
 	if reach == nil {
 		r.Fail("wait:ctx-done", r.Where(sel), "undecided: the ctx.Done() case is not dispatched on")
 		return
@@ -633,17 +1015,37 @@ func c13WaitRule(r *Run, fn *ssa.Function) {
 	ok := len(rets) > 0
 	got := []string{}
 	for _, ret := range rets {
-		d := r.D.D(RetVals(ret)[0])
+		v := RetVals(ret)
+		d, okL := w.inLoop(r, r.D.D(v[len(v)-1]))
 		got = append(got, d)
-		ok = ok && d == "iface(context.Context).Err(p1)"
+		ok = ok && okL && d == c13CtxErr
 	}
 	r.Check("wait:ctx-done", ok, r.Where(sel), fmt.Sprintf("context ended ⇒ returns %v (must be ctx.Err())", got))
-	// and the timer case returns nil
-	okNil := false
-	for _, ret := range Returns(fn) {
-		okNil = okNil || errKind(RetVals(ret)[0]) == "nil"
+	// and the timer case returns nil / goes on to the next attempt
+	if !w.inline() {
+		okNil, gotF := fired != nil, []string{}
+		if fired != nil {
+			frets := reachableReturns(fn, fired)
+			okNil = len(frets) > 0
+			for _, ret := range frets {
+				v := RetVals(ret)
+				gotF = append(gotF, r.D.DUnder(v[len(v)-1], fired))
+				for _, e := range PhiLeaves(v[len(v)-1], fired) {
+					okNil = okNil && errKind(e) == "nil"
+				}
+			}
+		}
+		r.Check("wait:timer-fired", okNil, r.FnPos(fn), fmt.Sprintf("the timer case returns nil: %v", gotF))
+		return
 	}
-	r.Check("wait:timer-fired", okNil, r.FnPos(fn), "the timer case returns nil")
+	okNext := fired != nil && len(reachableReturns(fn, fired)) == 0
+	if okNext {
+		okNext = false
+		for _, p := range header.Preds {
+			okNext = okNext || header.Dominates(p) && fired.Blocks[p]
+		}
+	}
+	r.Check("wait:timer-fired", okNext, r.Where(sel), "the timer case goes on to the next attempt without returning")
 }
 
 // ---- R5: PostAndParse ---------------------------------------------------------------
